@@ -7,4 +7,5 @@
 #define INT_HAS_UB 0
 #define INT_UB 0
 #define INT_EXT 0
+#define INT_UNSIGNED_REPR 1
 #include "drv/int_common.h"
